@@ -523,6 +523,9 @@ def wire_fixed(kinds):
                 out.append(dict(id="fixed:live:%s:flood" % codec, cfg={"kind": "live", "codec": codec, "items": ["req"] + ["dup"] * 30}, steps=[]))
             for c in ("1m", "3y", "10y", "100y", "10000y", "2p36ms"):
                 out.append(dict(id="fixed:clientdl:%s" % c, cfg={"kind": "clientdl", "dl_class": c}, steps=[]))
+            # scale: a run of unsolicited responses longer than any stack is deep, in a child process
+            for n in ((2000000,) if tier == "quick" else (2000000, 5000, 20000000)):
+                out.append(dict(id="fixed:flood:%d" % n, cfg={"kind": "flood", "n": n}, steps=[]))
             # old connections: the timer queue's range is measured from its creation when no timer ever fired
             for age in (70, 300):
                 for codec in ("json", "bincode"):
